@@ -3,6 +3,7 @@ from typing import Any, Dict, Optional
 from conductor.config import COND_INCLUDE_EXTENSION
 from conductor.task_types import raw_task_types
 from conductor.errors import (
+    ConductorAbort,
     ConductorError,
     DuplicateTaskName,
     MissingCondFile,
@@ -167,6 +168,10 @@ class TaskLoader:
                 )
             )
             raise syntax_err from ex
+        except ConductorAbort:
+            # We were interrupted while evaluating the included file; this is
+            # not an error in the file.
+            raise
         except Exception as ex:
             run_err = TaskParseError(error_details=str(ex))
             run_err.add_file_context(
